@@ -263,10 +263,16 @@ def field_flow(ctx, reach, struct_fields):
                 if tt.k == "switch" and tt.discr.place is not None and tt.discr.place.is_local():
                     dl = tt.discr.place.local
                     src = None
+                    is_field = False
                     for st in f.blocks[d].stmts:
                         if st.k == "assign" and st.place.is_local() and st.place.local == dl and st.rv.k == "discr":
                             src = st.rv.place.local
-                    if src is not None and f.local_ty(src).endswith("Field"):
+                            ty = f.local_ty(src)
+                            # `match key { Field::X => .. }` on a Field local, or `match next_key()? { Some(Field::X) => .. }` on the
+                            # payload of an Option<Field>
+                            is_field = (ty.endswith("Field") and not st.rv.place.proj) or \
+                                       (ty.startswith("std::option::Option<") and ty.rstrip(">").endswith("Field") and bool(st.rv.place.proj))
+                    if src is not None and is_field:
                         from ..guards import reach_without
                         for v, b in tt.j["arms"]:
                             others = [b2 for v2, b2 in tt.j["arms"] if b2 != b] + [tt.j["otherwise"]]
